@@ -299,12 +299,26 @@ func (e RootHashEngine) runHistory(ctx context.Context, h int, hc RHHistory, k R
 		st.Inc("probe.commit")
 		st.Event("h%d commit v=%d root=%s", h, version, root)
 		if want := CanonicalRoot(ctx, model, rootType); want != root {
+			diag := ""
+			if ndb != nil {
+				// Diagnosis only: what does the committed root hold when read through a fresh,
+				// unlimited cache?
+				ft := mkvs.NewWithRoot(nil, ndb, r)
+				if err := CompareDump(ctx, ft, model); err != nil {
+					diag = "; contents under the committed root: " + err.Error()
+				} else {
+					diag = "; the committed root holds exactly the model's pairs (structure differs)"
+				}
+				ft.Close()
+			}
+			what += diag
 			return rhViol("root-mismatch", "root-mismatch intermediate", fmt.Sprintf("history %d (%s, nodes=%d, values=%d): commit %d (%s) produced root %s but the canonical build of the same %d pairs gives %s", h, hc.Backend, hc.NodeCap, hc.ValueCap, version, what, root, len(model), want))
 		}
 		return nil
 	}
 	mutate := func(kind string, key []byte, val []byte) *core.Violation {
 		var err error
+		st.Event("h%d %s %x len=%d", h, kind, key, len(val))
 		switch kind {
 		case "ins":
 			err = cur().Insert(ctx, key, val)
